@@ -188,7 +188,7 @@ func runPipe(api string, g *pipeGroup, wd time.Duration) (o pipeObs) {
 		return o
 	}
 	// quiescence: Close is deferred in the reader goroutine and may run just after the call returned
-	deadline := time.Now().Add(2 * time.Second)
+	deadline := time.Now().Add(1000 * time.Millisecond)
 	for time.Now().Before(deadline) {
 		if atomic.LoadInt32(&f.closes) >= 1 && bclGoroutines() == "" {
 			break
@@ -224,6 +224,8 @@ func judgePipe(g *pipeGroup, o pipeObs) (why, shape string) {
 func replayPipe(args []string) int {
 	op := parseOpts(args)
 	reps := op.int("reps", 6)
+	stride := op.int("stride", 1)
+	minReads := op.int("minreads", 0)
 	seed := int64(op.int("seed", 1))
 	s := newSummary("pipe")
 	groups := map[string]*pipeGroup{}
@@ -251,8 +253,11 @@ func replayPipe(args []string) int {
 	installJitter(seed)
 	defer setSink(nil)
 	hangs := 0
-	for _, k := range order {
+	for oi, k := range order {
 		g := groups[k]
+		if len(g.script) < minReads || (stride > 1 && len(g.script) >= 3 && oi%stride != int(seed)%stride) {
+			continue // a seeded sample of the long scripts; the short ones are all run
+		}
 		s.Distinct++
 		if len(g.script) >= 2 {
 			s.Nontrivial++
